@@ -207,6 +207,9 @@ class Dispatcher:
             # special case for *IDN?
             if action == IDENTREQUEST:
                 action, specifier, data = '_ident', None, None
+            elif action.startswith('_') or action == 'request':
+                # not a SECoP action, must not reach an internal handler
+                raise ProtocolError(f'unhandled message: {repr(msg)}')
 
             self.log.debug('Looking for handle_%s', action)
             handler = getattr(self, f'handle_{action}', None)
